@@ -105,6 +105,14 @@ def scenarios(ctx):
                         "chunks": [ctx.data(b"generation %d" % g)]} for g in range(150)] + [have[-1]]
     S("metadata-long-bucket", "metadata", {"op": "metadata", "cache": "<C>", "key": "k"}, longhist, key="k", old=old_k)
     S("read-long-bucket", "read", {"op": "read", "cache": "<C>", "key": "k"}, longhist, key="k", old=old_k, data=stored)
+    # a key whose bucket is well above one block - through a single record with 6 KiB of metadata, so that the size does
+    # not depend on how an implementation treats long histories
+    bigmd = {"v": 1, "pad": "p" * 6000}
+    havebig = warm + [{"op": "writer", "cache": "<C>", "key": "k", "opts": {"time": "7", "metadata": bigmd}, "chunks": [ctx.data(stored)]}]
+    old_big = ({"key": "k", "integrity": sri_stored, "time": 7, "size": len(stored), "metadata": bigmd, "raw_metadata": None}, stored)
+    S("write-over-big-record", "write", {"op": "writer", "cache": "<C>", "key": "k", "opts": {"time": "1000"}, "chunks": [ctx.data(new)]},
+      havebig, key="k", old=old_big, newent=newent(new), data=new)
+    S("remove-over-big-record", "remove", {"op": "remove", "cache": "<C>", "key": "k"}, havebig, key="k", old=old_big)
     S("list", "list", {"op": "list", "cache": "<C>"}, have, key="k", old=old_k)
     S("remove", "remove", {"op": "remove", "cache": "<C>", "key": "k"}, have, key="k", old=old_k)
     S("remove_hash", "remove_hash", {"op": "remove_hash", "cache": "<C>", "sri": ref.sri("sha256", b"bystander one")},
